@@ -173,6 +173,22 @@ fn main() {
         shards.push((g, 99, 0, 1));
     }
     shards.sort_by_key(|(g, n, _, _)| std::cmp::Reverse((*g == Group::Npn) as usize * 100 + *n));
+    // cold start: the first canonizations of the process at the sizes that use generated (not tabulated) sequences
+    // come from 8 threads released together (lazily initialised process-wide state has its race here, once)
+    {
+        let mut rng = Rng::new(seed ^ 0xc01d);
+        let mut total = 0u64;
+        for n in [8usize, 7] {
+            for g in [Group::P, Group::Npn, Group::N] {
+                let f = gen::random_blocks(n, &mut rng);
+                let evs: Vec<Ev> = ["Lut", "LutN"].iter().map(|ty| Ev::new("certificate", ty, n).st(g.name()).st("cold-start").tab(&f)).collect();
+                total += run_events_concurrently(&mut ctx, seed, cli.threads, &evs, std::time::Duration::from_millis(100), |c, e| {
+                    exec_dispatch(c, e);
+                });
+            }
+        }
+        ctx.bump("cold-start:first-requests", total);
+    }
     run_sharded(&mut ctx, cli.threads, shards.len(), |ctx, k| {
         let (g, n, c, chunks) = shards[k];
         let mut rng = Rng::new(seed ^ ((n as u64) << 48) ^ ((g as u64) << 42) ^ (c as u64).wrapping_mul(0x9e3779b1));
